@@ -1816,6 +1816,21 @@ func (ts *Service) handleUpdateTemplate(w http.ResponseWriter, r *http.Request) 
 	updated.Modified = now
 
 	if original.ID != updated.ID {
+		if _, err := ts.templates.Get(updated.ID); err == nil {
+			httpd.HttpError(w, fmt.Sprintf("failed to create new template for ID change: %s", ErrTemplateExists), true, http.StatusInternalServerError)
+			return
+		}
+	}
+
+	// Update all associated tasks first: the template itself is saved only once every task has
+	// accepted the new definition, so that a rejected update leaves the template unchanged as well.
+	err = ts.updateAllAssociatedTasks(original, updated, taskIds)
+	if err != nil {
+		httpd.HttpError(w, err.Error(), true, http.StatusInternalServerError)
+		return
+	}
+
+	if original.ID != updated.ID {
 		if err := ts.templates.Create(updated); err != nil {
 			httpd.HttpError(w, fmt.Sprintf("failed to create new template for ID change: %s", err.Error()), true, http.StatusInternalServerError)
 			return
@@ -1829,13 +1844,6 @@ func (ts *Service) handleUpdateTemplate(w http.ResponseWriter, r *http.Request) 
 			httpd.HttpError(w, fmt.Sprintf("failed to replace template definition: %s", err.Error()), true, http.StatusInternalServerError)
 			return
 		}
-	}
-
-	// Update all associated tasks
-	err = ts.updateAllAssociatedTasks(original, updated, taskIds)
-	if err != nil {
-		httpd.HttpError(w, err.Error(), true, http.StatusInternalServerError)
-		return
 	}
 
 	// Return template definition
@@ -1882,6 +1890,9 @@ func (ts *Service) updateAllAssociatedTasks(old, new Template, taskIds []string)
 			if task.TemplateID != new.ID {
 				// Not updated by the loop below: nothing to roll back.
 				continue
+			}
+			if old.ID != new.ID {
+				ts.templates.DisassociateTask(new.ID, taskId)
 			}
 			task.TemplateID = old.ID
 			task.TICKscript = old.TICKscript
